@@ -138,8 +138,9 @@ def _measures(g, A, viol, excl):
             exp = orc(Al, side)
             ok, skipped = _cmp(got, exp)
             if skipped:
-                r = "%s undefined (fewer than two neighbours / no or " \
-                    "unreachable nodes on that side)" % name
+                r = "%s undefined (%s on that side)" % (name, {
+                    "local_clustering": "fewer than two neighbours",
+                    "closeness": "no or unreachable nodes"}.get(name, "?"))
                 excl[r] = excl.get(r, 0) + skipped
             if not ok:
                 failed.add(full)
